@@ -113,6 +113,29 @@ def corpus(rng, quick):
         for nn, nested in (("par", npar), ("map", nmap)):
             out.append(S("handled-fail-vs-nested-%s-%s" % (nn, hn), outer(handler, nested), {"items": [1, 2]},
                          {"fa": [("err", "EA", "m")] + ([("ok",)] if hn == "retry-ok" else []), "fx": [("ok",)]}, {"fa": 5, "fx": 40}))
+    # a branch fails while a sibling is pending in a Task / Wait that has a Retry or Catch of its own (States.ALL,
+    # States.TaskFailed), or sits in a nested fan-out that has one: the cancellation (Task.Terminated) of the sibling must go
+    # through none of them — flat unhandled / caught / retried enclosing state
+    sib_catch = [{"ErrorEquals": ["States.ALL"], "Next": "SR"}]
+    siblings = (
+        ("task-catch-all", {"StartAt": "B", "States": {"B": T("fb", Catch=sib_catch), "SR": {"Type": "Pass", "End": True}}}),
+        ("task-catch-taskfailed", {"StartAt": "B", "States": {"B": T("fb", Catch=[{"ErrorEquals": ["States.TaskFailed"], "Next": "SR"}]),
+                                                               "SR": {"Type": "Pass", "End": True}}}),
+        ("task-retry-all", {"StartAt": "B", "States": {"B": T("fb", Retry=[{"ErrorEquals": ["States.ALL"], "IntervalSeconds": 1, "MaxAttempts": 2}])}}),
+        ("nested-catch-wait", {"StartAt": "N", "States": {"N": {"Type": "Parallel", "Next": "SR", "Catch": sib_catch, "Branches": [
+            {"StartAt": "W", "States": {"W": {"Type": "Wait", "Seconds": 2, "Next": "WP"}, "WP": {"Type": "Pass", "End": True}}}]},
+            "SR": {"Type": "Pass", "End": True}}}),
+        ("nested-catch-task", {"StartAt": "N", "States": {"N": {"Type": "Parallel", "Next": "SR", "Catch": sib_catch, "Branches": [
+            {"StartAt": "B", "States": {"B": T("fb")}}]}, "SR": {"Type": "Pass", "End": True}}}),
+    )
+    for hn, handler in (("none", {}), ("catch", {"Catch": [{"ErrorEquals": ["EA"], "Next": "R"}]}),
+                        ("retry", {"Retry": [{"ErrorEquals": ["EA"], "IntervalSeconds": 1, "MaxAttempts": 1}]})):
+        for sn, sib in siblings:
+            m = {"StartAt": "P", "States": {"P": dict({"Type": "Parallel", "Next": "Z", "Branches": [
+                {"StartAt": "A", "States": {"A": T("fa")}}, json.loads(json.dumps(sib))]}, **handler),
+                "Z": {"Type": "Pass", "End": True}, "R": {"Type": "Pass", "Result": "recovered", "End": True}}}
+            out.append(S("par-fail-vs-handled-sibling-%s-%s" % (sn, hn), m, {"x": 1},
+                         {"fa": [("err", "EA", "m"), ("ok",)], "fb": [("ok",)]}, {"fa": 5, "fb": 400}))
     # a branch / iteration whose (successful) last state outputs an object with an "Error" member: an Error Output handed on by
     # a Catch, or just data that looks like one; its StateExited is logged like any other
     out.append(S("branch-catch-then-succeed", {"StartAt": "P", "States": {"P": {"Type": "Parallel", "End": True, "Branches": [
